@@ -22,6 +22,9 @@ CONSTANTS
   Salts = {0, 1, 2, 3, 4, 5}
   DefaultLast = FALSE
   BareMaps = TRUE
+  MaxScopeMods = 2
+  TableKinds = {"static", "file", "regexp", "regexp_repl", "scripted"}
+  SenderCap = 99
   PrintExpected = TRUE
 CHECK_DEADLOCK FALSE
 INVARIANT TheoremsHold
